@@ -65,7 +65,10 @@ def run(ctx):
                 "auth_strategy=private-key source}: {default, non-default port} x known_hosts {same key, different key same type, only "
                 "other key types, hashed entry, entry under the other port's name, none} x {Reject, AutoAdd, Warning, "
                 "custom accept, custom refuse}; (b2) system store x user store (load_system_host_keys / load_host_keys: none, same key, "
-                "other types, different key of the same type) x policy; (b7) connect(gss_kex=True) over a stub GSS context against a server that offers no gss-* kex x "
+                "other types, different key of the same type) x policy; (b8) util.constant_time_bytes_eq on pairs with cancelling differences (same XOR, same sum, "
+                "permutations) and a hashed known_hosts entry (fixed salt) vs host names that collide with it under weak "
+                "digests (XOR / sum of bytes, last byte) found by search, alone or shadowing the host's own later entry; "
+                "(b7) connect(gss_kex=True) over a stub GSS context against a server that offers no gss-* kex x "
                 "known_hosts variants x policies; (b6) stores loaded from a multi-name line (host,ip / [host]:port,[ip]:port) and edited through the "
                 "API before connect (HostKeys.add, __setitem__, SubDict set, del) x server presents the old / the new key; "
                 "(b5) known RSA key vs presented near-collisions with a usable private half (modulus congruent "
@@ -84,7 +87,7 @@ def run(ctx):
     keys = G.keys()
 
     # ---------------- (a) lifecycle
-    n_life = 120 if ctx.thorough else 30
+    n_life = 120 if ctx.thorough else 24
     scripts = [gen_life(rng) for _ in range(n_life)]
     scripts[0] = (["auth:pw", "start", "auth:pw", "kex:1", "auth:pk", "newkeys", "auth:pw", "accept"], False)
     scripts[1] = (["start", "kex:0", "auth:pw", "auth:ki"], True)
@@ -138,7 +141,7 @@ def run(ctx):
     if not ctx.thorough:
         # every (known_hosts variant, entry point) with a rejecting and an accepting policy, plus a random sample
         keep = [c for c in combos if (c[0], c[2]) in ((22, "reject"), (2222, "autoadd"))]
-        keep += rng.sample([c for c in combos if c not in keep], 12)
+        keep += rng.sample([c for c in combos if c not in keep], 8)
         combos = keep
     reqs, cases = [], []
     for port, vname, pol, ep in combos:
@@ -191,7 +194,7 @@ def run(ctx):
     combos2 = [(sy, us, pol) for sy in stores for us in stores for pol in ("reject", "autoadd", "warning", "custom-ok")]
     if not ctx.thorough:
         must = [c for c in combos2 if c[0] == "other-types" and c[2] in ("autoadd", "custom-ok")]
-        combos2 = must + rng.sample([c for c in combos2 if c not in must], 14)
+        combos2 = must + rng.sample([c for c in combos2 if c not in must], 10)
     name = host
     reqs = []
     for sy, us, pol in combos2:
@@ -217,6 +220,61 @@ def run(ctx):
                      "outcome %s, server saw %r" % (obs["outcome"], obs["server_saw"]))
         if consulted and obs["policy_called"]:
             ctx.fail("known-host-handed-to-missing-host-key-policy", case, repr(obs["policy_called"]))
+        if G.PASSWORD.encode() in obs["raw"]:
+            ctx.fail("secret-in-plaintext", case, "password in the client's raw output")
+
+    # ---------------- (b8) hashed known_hosts names: only the host whose salted hash is IDENTICAL matches
+    from paramiko import util as putil
+    pairs = G.cancelling_pairs(rng, 400 if ctx.thorough else 80)
+    reqs = ["cteq %s %s" % (hx(a), hx(b)) for _k, a, b in pairs]
+    replies = ctx.driver("C17", reqs)
+    for i, (kind, a, b) in enumerate(pairs):
+        for conv, name in ((lambda x: x, "bytes"), (lambda x: x.decode("latin1"), "str")):
+            got = bool(putil.constant_time_bytes_eq(conv(a), conv(b)))
+            ctx.case(("cteq", kind, a, b, name), kind != "equal")
+            ctx.dist("cteq:" + kind)
+            if got != (a == b):
+                ctx.fail("constant-time-comparison-is-not-equality", {"a": a.hex(), "b": b.hex(), "as": name, "kind": kind},
+                         "constant_time_bytes_eq returned %s for %s strings" % (got, "equal" if a == b else "different"))
+            if replies is not None and replies[i] != ("1" if got else "0"):
+                ctx.disagree("constant_time_bytes_eq", {"a": a.hex(), "b": b.hex(), "as": name}, replies[i], got)
+    target = "alpha.example.com"
+    hashed_line = "%s %s %s\n" % (G.hashed_name(target), server_key.get_name(), server_key.get_base64())
+    coll = G.weak_collisions(target)
+    ctx.extra["weak_digest_collisions"] = coll
+    if "xor-of-bytes" not in coll or "sum-of-bytes" not in coll:
+        ctx.broken.append({"kind": "generator", "what": "no weak-digest collision found for the hashed name", "detail": repr(coll)})
+    hcases = [(target, "the-hashed-host", "none")] + [(cand, dn, shadow) for dn, cand in sorted(coll.items())
+                                                     for shadow in ("none", "own-entry-later")]
+    reqs = []
+    for hname, dn, shadow in hcases:
+        if hname == target:
+            known = key_tok(server_key)
+        else:
+            known = "none" if shadow == "none" else key_tok(keys["ec2"])
+        reqs.append("sconn %s %s 0" % (known, key_tok(server_key)))
+    replies = ctx.driver("C17", reqs)
+    for i, (hname, dn, shadow) in enumerate(hcases):
+        text = hashed_line
+        if shadow == "own-entry-later":
+            # the connecting host has its own (plain) entry with ANOTHER key, listed after the hashed line
+            text += "%s %s %s\n" % (hname, keys["ec2"].get_name(), keys["ec2"].get_base64())
+        ep = rng.choice(entries_points)
+        st = rng.choice(["user", "system"])
+        obs = G.run_ssh_client(hname, 22, [], "reject", server_key, ep, raw_lines=text, raw_store=st)
+        should_send = hname == target
+        ctx.case(("hashed-name", hname, dn, shadow, st, ep), hname != target)
+        ctx.dist("hashed-entry-vs:" + dn)
+        case = {"known_hosts": "hashed entry for %s (fixed salt)%s" % (target, " + own plain entry with another key" if
+                                                                       shadow != "none" else ""),
+                "connecting_to": hname, "collides_under": dn, "store": st, "entry_point": ep, "policy": "reject"}
+        if replies is not None and replies[i] != obs["outcome"]:
+            ctx.disagree("SSHClient.connect decision (hashed names)", case, replies[i], obs["outcome"])
+        if not should_send and (obs["server_saw"] or obs["outcome"] == "authenticate"):
+            ctx.fail("credentials-sent-to-a-host-matched-by-another-hosts-hashed-entry", case,
+                     "outcome %s, server saw %r" % (obs["outcome"], obs["server_saw"]))
+        if should_send and not obs["server_saw_credential"]:
+            ctx.disagree("harness: accepted server did not receive the credential", case, "credential", obs["outcome"])
         if G.PASSWORD.encode() in obs["raw"]:
             ctx.fail("secret-in-plaintext", case, "password in the client's raw output")
 
@@ -320,7 +378,7 @@ def run(ctx):
     ncases = [(nn, pol, st) for nn in sorted(near) for pol in ("reject", "autoadd", "custom-ok") for st in ("user", "system")]
     if not ctx.thorough:
         ncases = [c for c in ncases if c[1] == "reject" and c[2] == "user"] + rng.sample(
-            [c for c in ncases if not (c[1] == "reject" and c[2] == "user")], 6)
+            [c for c in ncases if not (c[1] == "reject" and c[2] == "user")], 4)
     replies = ctx.driver("C17", ["sconn %s %s %d" % (key_tok(known_rsa), key_tok(near[nn]), 0 if pol == "reject" else 1)
                                  for nn, pol, st in ncases])
     for i, (nn, pol, st) in enumerate(ncases):
@@ -351,7 +409,7 @@ def run(ctx):
     rp = sorted(G.raising_policies())
     rcases = [(pn, vn, port) for pn in rp for vn in ("none", "other-port-name-only") for port in (22, 2222)]
     if not ctx.thorough:
-        rcases = [(pn, "none", 22) for pn in rp] + rng.sample([c for c in rcases if not (c[1] == "none" and c[2] == 22)], 6)
+        rcases = [(pn, "none", 22) for pn in rp] + rng.sample([c for c in rcases if not (c[1] == "none" and c[2] == 22)], 3)
     replies = ctx.driver("C17", ["sconn none %s 0" % key_tok(server_key) for _ in rcases])
     for i, (pn, vn, port) in enumerate(rcases):
         name = host if port == 22 else "[%s]:%d" % (host, port)
